@@ -187,3 +187,9 @@ Definition c05_case_exact (reg : registry) (cur : Z) (c : ccase) : bool :=
   | Ok v' => pval_eqb v' (cc_val c)
   | Raise _ => false
   end.
+(* loads(dumps(v)) returns a value with the same abstraction (types, structure, values, sharing) *)
+Definition c05_case_same (reg : registry) (cur : Z) (c : ccase) : bool :=
+  match roundtrip reg cur (cc_facts c) (cc_denv c) (cc_base c) (cc_val c) with
+  | Ok v' => pstr_eqb (show_val v') (show_val (cc_val c))
+  | Raise _ => false
+  end.
